@@ -795,7 +795,7 @@ void list_output_riscv(
     {
       fprintf(asm_context->list, "0x%08x: 0x%04x     %s\n",
         start,
-        opcode,
+        opcode & 0xffff,
         instruction);
     }
       else
@@ -874,7 +874,7 @@ void disasm_range_riscv(
 
     if (count == 2)
     {
-      printf("0x%08x: 0x%04x     %-40s cycles: ", start, opcode, instruction);
+      printf("0x%08x: 0x%04x     %-40s cycles: ", start, opcode & 0xffff, instruction);
     }
       else
     {
